@@ -105,8 +105,18 @@ class C19(Prop):
             s = np.array(t["args"][0], copy=True)
             lam = t["args"][1]
             if s.ndim == 2:
+                asym = r.random() < 0.4 and s.shape[0] > 1
+                if asym:
+                    # a covariance that is symmetric only to rounding: one triangle went through float32
+                    iu = np.triu_indices(s.shape[0], 1)
+                    s[iu] = s[iu].astype(np.float32).astype(np.float64)
+                    rec.probe("direct_optimiser_asymmetric_covariance")
                 s = np.asfortranarray(s) if r.random() < 0.5 else s
-                s.setflags(write=False)
+                writable_before = None
+                if r.random() < 0.5:
+                    s.setflags(write=False)
+                else:
+                    writable_before = s.copy()
                 if isinstance(lam, np.ndarray):
                     lam = np.array(lam, copy=True)
                     lam.setflags(write=False)
@@ -123,7 +133,10 @@ class C19(Prop):
                     res = admm.admm_optimize_theta(s, lam, t["args"][2], t["args"][3], **kw)
                     rec.probe("direct_optimiser_calls")
                     rec.probe("direct_optimiser_step_" + step)
-                    if step == "recorded" and not np.array_equal(np.asarray(res.theta), t["theta"], equal_nan=True):
+                    if writable_before is not None and not np.array_equal(s, writable_before, equal_nan=True):
+                        f.append(("C19:optimiser_modifies_input", "optimiser entry point changed the (writable) covariance "
+                                                                  "matrix it was given"))
+                    if step == "recorded" and not asym and not np.array_equal(np.asarray(res.theta), t["theta"], equal_nan=True):
                         f.append(("C19:readonly_changes_result", "optimiser entry point gives a different result for a "
                                                                  "read-only copy of the same covariance"))
                 except Exception as e:  # noqa: BLE001
